@@ -176,23 +176,197 @@ class StarArgs:
         raise OutOfSubset('use of the elements of a symbolic list outside a call')
 
 
-class ArgList(SList):
-    """SList that can be star-unpacked into a call of a spec function (FnSpec) and keeps its class (and ghost) through sorted() / comprehensions"""
+LEX_TABLE = 12      # finitised mode: str(int) order is tabulated for 0 <= int < LEX_TABLE (positional params are bounded by it there)
 
-    def _wrap(self, o):
-        return ArgList(o.n, o.elt, o.ghost)
+
+def lexlt(cx, a, b):
+    """SPEC of python's order of str(param) on Param terms (a positional param prints as its decimal digits).
+    Finitised mode: the concrete order (decimal strings of the ints below LEX_TABLE; names by a fixed total order; digits before names).
+    Proof mode: an uninterpreted strict total order that agrees with < on single-digit ints (sound facts only)."""
+    th = cx.th
+    P = th.Param
+    if th.fin:
+        ia, ib = P.pos_of(a), P.pos_of(b)
+        tab = z3.Or([z3.And(ia == i, ib == j) for i in range(LEX_TABLE) for j in range(LEX_TABLE) if str(i) < str(j)])
+        su = list(th.str_u)
+        names = z3.Or([z3.And(P.pname_of(a) == su[i], P.pname_of(b) == su[j]) for i in range(len(su)) for j in range(len(su)) if i < j] or [z3.BoolVal(False)])
+        return z3.If(z3.And(P.is_ppos(a), P.is_ppos(b)), tab,
+                     z3.If(z3.And(P.is_pname(a), P.is_pname(b)), names, z3.And(P.is_ppos(a), P.is_pname(b))))
+    f = cx.__dict__.get('_lexlt')
+    if f is None:
+        f = cx._lexlt = z3.Function('str_lt', P, P, BoolS)
+        x, y, w = z3.Consts('lx ly lz', P)
+        i, j = z3.Ints('li lj')
+        cx.vc.assume(z3.ForAll([x], z3.Not(f(x, x))),
+                     z3.ForAll([x, y, w], z3.Implies(z3.And(f(x, y), f(y, w)), f(x, w))),
+                     z3.ForAll([x, y], z3.Or(x == y, f(x, y), f(y, x))),
+                     z3.ForAll([i, j], z3.Implies(z3.And(0 <= i, i <= 9, 0 <= j, j <= 9), f(P.ppos(i), P.ppos(j)) == (i < j))))
+    return f(a, b)
+
+
+class LexKey(Sym):
+    """str(param): only its ORDER is modelled (sort key)"""
+
+    def __init__(self, t):
+        self.t = t
+
+    def _no(self, *a):
+        raise OutOfSubset('use of str(param) other than as a sort key')
+
+    __eq__ = __ne__ = __add__ = __getitem__ = __len__ = _no
+    __hash__ = Sym.__hash__
+
+
+def vc_str(x='', *a):
+    if isinstance(x, SParam):
+        return LexKey(x.t)
+    if isinstance(x, Sym):
+        raise OutOfSubset('str(%s)' % type(x).__name__)
+    return str(x, *a)
+
+
+vc_str._vc_models = str
+
+
+def _subst_value(v, g, t):
+    """the proxy value v (built over the generic constant g) at t"""
+    if isinstance(v, tuple):
+        return tuple(_subst_value(x, g, t) for x in v)
+    if isinstance(v, SVal):
+        return SVal(v.heap, z3.substitute(v.t, (g, t)))
+    if isinstance(v, (SParam, SNodeName, SInt, SBool, LexKey)):
+        return type(v)(z3.substitute(v.t, (g, t)))
+    raise OutOfSubset('element of type %s in a symbolic comprehension' % type(v).__name__)
+
+
+class ArgList(SList):
+    """SList of per-parent values that can be star-unpacked into a call of a spec function (FnSpec).  It carries the ghost position witnesses
+    ghost.idx(parent) / ghost.own(index) through sorted() (also by str(param): LexKey), mapping and FILTERING comprehensions and dict comprehensions."""
+
+    def _wrap(self, o, ghost=None):
+        return ArgList(o.n, o.elt, ghost if ghost is not None else self.ghost)
+
+    def _generic(self, f):
+        """evaluate f(elt(g)) for a generic index g of the list (obligations it emits hold for every index) -> (g, result)"""
+        vc = cur()
+        g = vc.fresh_int('gi')
+        saved = len(vc.pc)
+        vc.pc.append(z3.And(g >= 0, g < self.n))
+        try:
+            r = f(self.elt(g))
+        finally:
+            del vc.pc[saved:]
+        return g, r
 
     def _vc_sorted(self, key=None, reverse=False):
-        return self._wrap(SList._vc_sorted(self, key, reverse))
+        if reverse:
+            raise OutOfSubset('sorted(reverse=True)')
+        vc, cx = cur(), ctx_of()
+        g, k = self._generic(lambda e: key(e) if key is not None else e)
+        if isinstance(k, LexKey):
+            n, elt = self.n, self.elt
+            pi, pinv = vc.fresh_fn('sort.pi', IntS, IntS), vc.fresh_fn('sort.pinv', IntS, IntS)
+            kt = lambda i: z3.substitute(k.t, (g, _zi(i)))
+            vc.assume(forall_range(0, n, lambda i: z3.And(pi(i) >= 0, pi(i) < n, pinv(pi(i)) == i, pinv(i) >= 0, pinv(i) < n, pi(pinv(i)) == i), 'i'),
+                      forall_range(0, n, lambda i: forall_range(0, n, lambda j: z3.Implies(i <= j, z3.Not(lexlt(cx, kt(pi(j)), kt(pi(i))))), 'j'), 'i'))
+            out = SList(n, lambda i: elt(pi(_zi(i))))
+            vc.libcall('sorted', dict(pi=pi, pinv=pinv, n=n, src=self, out=out, by='str'))
+        else:
+            out = SList._vc_sorted(self, key, reverse)
+            rec = vc.libcalls['sorted'][-1]
+            pi, pinv = rec['pi'], rec['pinv']
+        gh = None
+        if self.ghost is not None:
+            idx0, own0 = self.ghost.idx, self.ghost.own
+            gh = NS(idx=lambda p: pinv(idx0(p)), own=lambda i: own0(pi(i)))
+        return ArgList(out.n, out.elt, gh)
+
+    def _cond(self, cond_fn):
+        g, c = None, None
+        vc = cur()
+        g = vc.fresh_int('gi')
+        saved = len(vc.pc)
+        vc.pc.append(z3.And(g >= 0, g < self.n))
+        try:
+            c = nxspec.summarise_bool(lambda: cond_fn(self.elt(g)))
+        finally:
+            del vc.pc[saved:]
+        return lambda i: z3.substitute(c, (g, _zi(i)))
 
     def _vc_listcomp(self, elt_fn, cond_fn):
-        return self._wrap(SList._vc_listcomp(self, elt_fn, cond_fn))
+        if cond_fn is None:
+            return self._wrap(SList._vc_listcomp(self, elt_fn, None))
+        # [f(e) for e in lst if c(e)]: the order-preserving sub-list.  emb: position in the result -> index in lst; rnk: its inverse on the kept indices
+        vc = cur()
+        c = self._cond(cond_fn)
+        n, elt = self.n, self.elt
+        m = vc.fresh_int('kept.n', nonneg=True, size=True)
+        emb, rnk = vc.fresh_fn('kept.emb', IntS, IntS), vc.fresh_fn('kept.rnk', IntS, IntS)
+        vc.assume(forall_range(0, m, lambda j: z3.And(emb(j) >= 0, emb(j) < n, c(emb(j)), rnk(emb(j)) == j), 'j'),
+                  forall_range(0, n, lambda i: z3.Implies(c(i), z3.And(rnk(i) >= 0, rnk(i) < m, emb(rnk(i)) == i)), 'i'),
+                  forall_range(0, n, lambda i: forall_range(0, n, lambda j: z3.Implies(z3.And(c(i), c(j), i < j), rnk(i) < rnk(j)), 'j'), 'i'))
+        gh = None
+        if self.ghost is not None:
+            idx0, own0 = self.ghost.idx, self.ghost.own
+            gh = NS(idx=lambda p: rnk(idx0(p)), own=lambda i: own0(emb(i)))
+        return ArgList(m, lambda j: elt_fn(elt(emb(_zi(j)))), gh)
+
+    def _vc_dictcomp(self, key_fn, val_fn, cond_fn):
+        """{k(e): v(e) for e in lst if c(e)} with parameter-name keys: a KwDict; the LAST kept element with a name wins (ghost witness widx)"""
+        cx = ctx_of()
+        th, vc = cx.th, cx.vc
+        c = self._cond(cond_fn) if cond_fn is not None else (lambda i: z3.BoolVal(True))
+        g, kv = self._generic(lambda e: (key_fn(e), val_fn(e)))
+        if not isinstance(kv[0], SParam):
+            raise OutOfSubset('dict comprehension over a parameter list whose keys are not params')
+        n = self.n
+        kt = lambda i: z3.substitute(kv[0].t, (g, _zi(i)))
+        vt = lambda i: z3.substitute(cx.H.to_val(kv[1]), (g, _zi(i)))
+        gi = vc.fresh_int('gi')
+        saved = len(vc.pc)
+        vc.pc.append(z3.And(gi >= 0, gi < n, c(gi)))
+        vc.oblige('call-pre[keyword names are str]', th.Param.is_pname(kt(gi)))
+        del vc.pc[saved:]
+        name = lambda i: th.Param.pname_of(kt(i))
+        D = KwDict.fresh('kwargs')
+        w = vc.fresh_fn('kwargs.widx', th.Str, IntS)
+        vc.assume(th.forall_strs(lambda q: z3.Implies(D.dom(q), z3.And(w(q) >= 0, w(q) < n, c(w(q)), name(w(q)) == q, D.val(q) == vt(w(q))))),
+                  forall_range(0, n, lambda i: z3.Implies(c(i), z3.And(D.dom(name(i)), i <= w(name(i)))), 'i'))
+        return D
 
     def _vc_list(self):
         return self._wrap(SList._vc_list(self))
 
     def __iter__(self):
         return iter([StarArgs(self)])
+
+
+class PredView(nxspec.NameSetView):
+    """G.predecessors(n): a comprehension / generator expression whose element is a TUPLE of per-parent values gives the list of those tuples
+    in an unspecified order, one entry per parent (ghost: idx(parent), own(index))"""
+
+    def _vc_listcomp(self, elt_fn, cond_fn):
+        th = theory()
+        vc = th.vc
+        g = th.fresh_node('comp')
+        saved = len(vc.pc)
+        vc.pc.append(self.mem(g))
+        try:
+            out = elt_fn(SNodeName(g))
+        finally:
+            del vc.pc[saved:]
+        if isinstance(out, SNodeName) and z3.eq(out.t, g):
+            return nxspec.NameSetView._vc_listcomp(self, elt_fn, cond_fn)
+        if cond_fn is not None or not isinstance(out, tuple):
+            raise OutOfSubset('comprehension over a predecessor set: element %s' % type(out).__name__)
+        P = NameSeq.of_set(self.mem, 'parents')
+        return ArgList(P.n, lambda i: _subst_value(out, g, P.at(i)), ghost=NS(idx=P.idx, own=lambda i: P.at(i)))
+
+
+class RunGraph(SDiGraph):
+    def predecessors(self, n):
+        v = SDiGraph.predecessors(self, n)
+        return PredView(v.G, v.mem)
 
 
 class KwDict(Sym):
@@ -327,10 +501,16 @@ def _acc_names(target):
 
 class Run(C03Contract):
     target = EXF + '::Executor._run'
-    comprehensions = True
+    comprehensions = 'tuple'
+    genexps = True
+
+    def env(self, vc):
+        e = C03Contract.env(self, vc)
+        e['str'] = vc_str
+        return e
 
     def setup(self, vc):
-        s = self.base(vc)
+        s = self.base(vc, RunGraph)
         s.node = self.name(s, 'node')
         s.fn = FnSpec(z3.Const('fn', s.th.Val))
         return s, (s.fn, s.node, s.G), {}
@@ -341,10 +521,23 @@ class Run(C03Contract):
                 ("every edge carries a 'param'", edges_have_param(th, g)),
                 ("every parent already has an 'output' (established by the loop invariant of Executor.execute)",
                  th.forall_nodes(lambda p: z3.Implies(g.edge(p, x), nd_has(th, g, h, p, 'output')))),
-                ('keyword names on the in-edges are pairwise distinct', names_distinct(th, g, x))]
+                ('keyword names on the in-edges are pairwise distinct', names_distinct(th, g, x))] + \
+            ([('finitisation: positional params below %d (the tabulated range of the str order)' % LEX_TABLE,
+               th.forall_nodes(lambda p: z3.Implies(pos_edge(th, g, p, x), z3.And(pint(th, g, p, x) >= 0, pint(th, g, p, x) < LEX_TABLE))))] if th.fin else [])
 
     def _out(self, s):
         return lambda p: nd_val(s.th, s.g0, s.h0, p, 'output')
+
+    def witness(self, vc, model, ob):
+        """the in-edges of the node in the counter-model: parent -> param"""
+        s = vc._s
+        th, g, x = s.th, s.g0, s.node.t
+        ev = lambda t: str(model.eval(t, model_completion=True))
+        edges = {}
+        for p in (th.node_u or []):
+            if z3.is_true(model.eval(g.edge(p, x), model_completion=True)):
+                edges[str(p)] = ev(g.param(p, x))
+        return dict(node=ev(x), in_edges=edges, note='replay: bounded pipeline harness (bounded/c03.py), models with fan-in 11 / 12 make two-digit positional params')
 
     # ---- loop 0: for parent_name in G.predecessors(node)
     def _fresh_args(self, why):
@@ -399,6 +592,9 @@ class Run(C03Contract):
 
     @property
     def loops(self):
+        loc = instrument.locate(self.target)
+        if not instrument.loops_in_source_order(loc.node):
+            return {}           # comprehension style: no loop to cut, the collections answer the comprehensions
         a, d = _acc_names(self.target)
         L = Loop(inv=self._inv, fresh={a: self._fresh_args, d: self._fresh_kwargs}, ghost_step=self._ghost_step,
                  at_head=lambda s, l: dict(n=self._accs(l)[0].n, idx=self._accs(l)[0].ghost.idx, own=self._accs(l)[0].ghost.own))
@@ -414,13 +610,7 @@ class Run(C03Contract):
         c = calls[0]
         if not isinstance(c.L, SList) or c.L.ghost is None:
             raise OutOfSubset('_run: the positional arguments are not the accumulated list')
-        idx0, own0 = c.L.ghost.idx, c.L.ghost.own
-        srt = cx.vc.libcalls.get('sorted')
-        if srt:
-            pi, pinv = srt[-1]['pi'], srt[-1]['pinv']
-            pos, own = (lambda p: pinv(idx0(p))), (lambda i: own0(pi(i)))
-        else:           # no sort in the code: the list order is the iteration order (the order clause will fail)
-            pos, own = idx0, own0
+        pos, own = c.L.ghost.idx, c.L.ghost.own         # the witnesses were carried through sorted() / comprehensions (ArgList)
         out.append(('the called function is the given operation', c.fn == s.fn.t))
         out += args_of(cx, s.g0, self._out(s), s.node.t, c.pk, pos, own)
         if not isinstance(result, dict) or set(result) != {'output'}:
